@@ -217,3 +217,25 @@ def c20_catalogue(quick):
                      'extra': 'Disallow: /\n\nUser-agent: *\nDisallow: /priv/\n'}}
     out.append(scenario('robots-agent-groups', [U(1, links=[2, 3]), U(2, disallowed=1), U(3)], dict(robots=1), N=1, robots=ua))
     return out
+
+
+def c02_catalogue(quick):
+    """Sites that OFFER out-of-scope URLs in every way: links, requisites, redirects (to a foreign host: the one
+    documented waiver; to a URL failing another rule: never), deeper than the depth limit."""
+    out = []
+    offer = [U(1, links=[2, 3, 4, 5, 6, dict(to=7, inline=1), dict(to=8, inline=1)]),
+             U(2, host='b.test'),                        # foreign host, linked
+             U(3, kind='redirect', rto=9),               # redirect to the foreign host
+             U(4, kind='redirect', rto=10),              # redirect to a rejected URL
+             U(5, rejected=1), U(6, links=[11]),
+             U(7), U(8, host='b.test'),                  # requisites: same host / foreign host
+             U(9, host='b.test', links=[2]), U(10, rejected=1), U(11, links=[12]), U(12)]
+    for strong in (1, 0):
+        for pq in (0, 1):
+            for lv in (0, 1, 2):
+                out.append(scenario('offer-S%d-P%d-L%d' % (strong, pq, lv), offer,
+                                    dict(strong=strong, pagereq=pq, level=lv), N=1))
+    out.append(scenario('offer-N2', offer, dict(pagereq=1), N=2))
+    out.append(scenario('offer-span', offer, dict(spanhosts=1, pagereq=1), N=1))
+    out.append(scenario('offer-norecursion', offer, dict(recursive=0, pagereq=1), N=1))
+    return out
